@@ -67,6 +67,7 @@ type PathStats struct {
 	Discharged   int
 	ConcreteObl  int
 	Inconclusive int
+	FeasUnknown  int // feasibility queries answered unknown: both branches explored (over-approximation)
 	Steps        int64
 }
 
@@ -87,6 +88,7 @@ type Explorer struct {
 	FallbackQueries   int
 	MaxViolations     int
 	StoppedEarly      bool
+	LastResort        int
 	lastProgress      time.Time
 
 	mu         sync.Mutex
@@ -288,32 +290,33 @@ func (ex *Explorer) worker() {
 
 // pathRun is the per-path state hanging off the interpreter.
 type pathRun struct {
-	ex       *Explorer
-	solver   *Solver
-	prefix   []dec
-	pos      int
-	trace    []dec
-	kinds    []string
-	pcN      int
-	pcKey    uint64
-	pcKey2   uint64
-	pcTerms  []*Term
-	pcFP     bool
-	worker   *workerState
-	nondets  []NondetRec
-	choices  []string
-	steps    int
-	obl      int
-	disch    int
-	concObl  int
-	incon    int
-	labels   map[string]bool
-	intr     map[string]int
-	funcs    map[string]int
-	assumes  map[string]int
-	observes []string
-	pcSample []string
-	dead     bool
+	ex        *Explorer
+	solver    *Solver
+	prefix    []dec
+	pos       int
+	trace     []dec
+	kinds     []string
+	pcN       int
+	pcKey     uint64
+	pcKey2    uint64
+	pcTerms   []*Term
+	pcFP      bool
+	worker    *workerState
+	nondets   []NondetRec
+	choices   []string
+	steps     int
+	obl       int
+	disch     int
+	concObl   int
+	incon     int
+	inconFeas int
+	labels    map[string]bool
+	intr      map[string]int
+	funcs     map[string]int
+	assumes   map[string]int
+	observes  []string
+	pcSample  []string
+	dead      bool
 }
 
 func (ex *Explorer) runPath(solver *Solver, prefix []dec, ws *workerState) {
@@ -335,6 +338,7 @@ func (ex *Explorer) runPath(solver *Solver, prefix []dec, ws *workerState) {
 	st.Discharged += p.disch
 	st.ConcreteObl += p.concObl
 	st.Inconclusive += p.incon
+	st.FeasUnknown += p.inconFeas
 	st.Steps += int64(p.steps)
 	for l := range p.labels {
 		ex.Labels[l]++
@@ -522,7 +526,7 @@ func (p *pathRun) decide(c *Term, kind string) bool {
 	}
 	rf := p.checkWith(tNot(c))
 	if rt == Unknown || rf == Unknown {
-		p.incon++
+		p.inconFeas++
 	}
 	if rf == Unsat {
 		p.trace = append(p.trace, dec{C: 1})
@@ -736,6 +740,40 @@ func (p *pathRun) checkAssert(label string, c *Term) {
 				return
 			}
 			fb.Pop()
+		}
+	}
+	if r == Unknown {
+		// last resort: fresh one-shot sessions (no accumulated state) of the
+		// other solver builds with four times the budget; only a proof counts
+		var q *Term
+		if !c.IsConst {
+			q = tNot(c)
+		}
+		for _, name := range []string{"z3-new", "cvc5"} {
+			to := 4 * p.ex.FallbackTimeoutMs
+			if to == 0 {
+				to = 4 * p.ex.TimeoutMs
+			}
+			s2, err := NewSolver(name, to, nil)
+			if err != nil {
+				continue
+			}
+			for _, t := range p.pcTerms {
+				s2.Assert(t)
+			}
+			if q != nil {
+				s2.Assert(q)
+			}
+			r2 := s2.Check()
+			p.ex.mu.Lock()
+			p.ex.Solver.add(s2.Stats)
+			p.ex.LastResort++
+			p.ex.mu.Unlock()
+			s2.Close()
+			if r2 == Unsat {
+				r = Unsat
+				break
+			}
 		}
 	}
 	switch r {
